@@ -247,7 +247,20 @@ impl DBM {
     /// reference to them.
     pub fn remove_tower_record(&self, tower_id: TowerId) -> Result<(), Error> {
         let query = "DELETE FROM towers WHERE tower_id=?";
-        self.remove_data(query, params![tower_id.to_vec()])
+        self.remove_data(query, params![tower_id.to_vec()])?;
+
+        // The cascade removes the links to the appointments (pending and invalid) but not the appointments themselves,
+        // given they may be shared with other towers. Delete the ones that are not referenced anymore.
+        self.connection
+            .execute(
+                "DELETE FROM appointments
+                    WHERE locator NOT IN (SELECT locator FROM pending_appointments)
+                    AND locator NOT IN (SELECT locator FROM invalid_appointments)",
+                [],
+            )
+            .map_err(Error::Unknown)?;
+
+        Ok(())
     }
 
     /// Loads all tower records from the database.
